@@ -12,7 +12,7 @@
 (* "sqlite" | "django" | "sqlalchemy".                                     *)
 (***************************************************************************)
 EXTENDS Lex, Sem, Json
-CONSTANTS MaxOps, Profile, Backend
+CONSTANTS MaxOps, Profile, Backend, LongN
 VARIABLES t, n
 
 Q == 39
@@ -48,6 +48,9 @@ ExpandArith(h) ==
   CASE h = "B" -> { <<0, Cmp(o, HI, a)>> : o \in {"eq", "lt", "ge", "ne"}, a \in {IntL(1), mC} }
                   \cup { <<0, Cmp("gt", IntL(0), HI)>>, <<0, Cmp("in", HI, Lst(<<IntL(-2), IntL(3)>>))>> }
                   \cup { <<0, Cmp(o, Hole("N"), c)>> : o \in {"eq", "lt", "ge"}, c \in {FL("0.5"), FL("1.5"), FL("2.5"), IntL(1)} }
+                  \* literals written with an exponent: tiny, negative, upper-case E, explicit sign
+                  \cup { <<0, Cmp(o, HI, c)>> : o \in {"lt", "gt"}, c \in {FL("1e-7"), FL("-1e-7"), FL("2.5e-1"), FL("1E3"), FL("1.5e+1")} }
+                  \cup { <<0, Cmp("in", HI, Lst(<<FL("1e-7"), FL("1e0"), FL("3.0e0")>>))>>, <<0, Cmp("lt", FL("-2.5E-1"), Hole("N"))>> }
     [] h = "N" -> { <<1, Bin(o, HI, f)>> : o \in {"div", "mul", "add", "sub"}, f \in {FL("2.0"), FL("0.5")} }
                   \cup { <<1, Bin("sub", FL("1.5"), HI)>>, <<1, Bin("mul", FL("-0.5"), HI)>> }
     [] h = "I" -> { <<0, x>> : x \in {nC, mC, IntL(-2), IntL(1), IntL(3)} }
@@ -142,7 +145,15 @@ ExpandTemporal(h) ==
                         ELSE { <<1, Bin(o, HT, x)>> : o \in {"add", "sub"}, x \in DurLits \cup {duC} })
     [] h = "U" -> { <<1, Bin("sub", HT, HT)>>, <<1, Bin("add", duC, duC)>>, <<1, Bin("sub", duC, UL("PT1H"))>>,
                     <<1, Bin("add", UL("PT1H"), duC)>>, <<0, duC>> }
-Expand(h) == CASE Profile = "temporal" -> ExpandTemporal(h) [] Profile = "logic" -> ExpandLogic(h) [] Profile = "fns" -> ExpandFns(h) [] Profile = "math" -> ExpandMath(h) [] Profile = "arith" -> ExpandArith(h)
+\* long in-lists: databases, drivers and "optimisations" have thresholds (500, 999, 1000, 2100 items); membership
+\* must not depend on where in a long list the value stands
+LongInts(first, last) == Lst(<<first>> \o [i \in 1..LongN |-> IntL(100 + i)] \o <<last>>)
+LongStrs(last) == Lst([i \in 1..(LongN + 1) |-> SL(<<107>> \o NatCps(i))] \o <<last>>)
+ExpandLong(h) ==
+  CASE h = "B" -> { <<0, Cmp("in", nC, LongInts(IntL(-2), IntL(3)))>>, <<0, Cmp("in", mC, LongInts(IntL(100), IntL(1)))>>,
+                    <<0, Cmp("in", sC, LongStrs(SL(<<97>>)))>>, <<0, Cmp("eq", nC, IntL(0))>> }
+                  \cup { <<1, Bool("and", HB, HB)>>, <<1, Bool("or", HB, HB)>>, <<1, Un("not", HB)>> }
+Expand(h) == CASE Profile = "temporal" -> ExpandTemporal(h) [] Profile = "long" -> ExpandLong(h) [] Profile = "logic" -> ExpandLogic(h) [] Profile = "fns" -> ExpandFns(h) [] Profile = "math" -> ExpandMath(h) [] Profile = "arith" -> ExpandArith(h)
                [] Profile = "strings" -> ExpandStrings(h) [] Profile = "misc" -> ExpandMisc(h)
 
 Init == t = HB /\ n = 0
